@@ -44,6 +44,28 @@ def model_dict(m):
     return out
 
 
+def small_model(s):
+    """Prefer a counter-model whose input parameters are small (replays fast)."""
+    try:
+        m = s.model()
+        ps = [d for d in m.decls() if d.arity() == 0 and d.name().startswith("p:")]
+        s.push()
+        s.set("timeout", 2000)
+        for d in ps:
+            c = d()
+            if z3.is_int(c):
+                s.add(c >= -3000, c <= 3000)
+            elif z3.is_real(c):
+                s.add(c >= -100000, c <= 100000)
+        out = None
+        if s.check() == z3.sat:
+            out = model_dict(s.model())
+        s.pop()
+        return out
+    except Exception:
+        return None
+
+
 def solve_vc(vc, use_portfolio=True):
     r = Result(vc)
     t0 = time.time()
@@ -85,6 +107,9 @@ def solve_vc(vc, use_portfolio=True):
     elif res == z3.sat:
         r.verdict = "refuted"
         r.model = model_dict(s.model())
+        small = small_model(s)
+        if small is not None:
+            r.model = small
     else:
         r.verdict = "unknown"
         r.detail = s.reason_unknown()
